@@ -21,15 +21,15 @@ def check(ctx):
         args = ['--bound', str(bound), '--jobs', str(min(vlib.NJOBS, 4 if ctx.tier == 'quick' else 12)), '--outdir', vlib.OUT, '--deadline', str(deadline)]
         ctx.run_engine(exe, args, label='arena-%s-b%d' % (sets, bound), timeout=deadline + 600, env=env)
     if ctx.tier == 'quick':
-        leg('a', 2, 40)
+        leg('a', 2, 45)
         leg('k', 2, 10)
         leg('b', 1, 15)
         ctx.run_engine(build_seq(ctx, 8), ['--outdir', vlib.OUT, '--deadline', '20'], label='arena-seq-d8', timeout=300)
     else:
-        leg('a', 3, 400)
-        leg('k', 3, 60)
-        leg('b', 2, 400)
-        ctx.run_engine(build_seq(ctx, 10), ['--outdir', vlib.OUT, '--deadline', '240'], label='arena-seq-d10', timeout=900)
+        leg('a', 3, 300)
+        leg('k', 3, 45)
+        leg('b', 2, 250)
+        ctx.run_engine(build_seq(ctx, 10), ['--outdir', vlib.OUT, '--deadline', '120'], label='arena-seq-d10', timeout=900)
     return ctx.finish(RULE, ["sequential consistency at instrumented accesses (no weak-memory effects)",
                              "gcc -fsanitize=thread instrumentation reports every access to the watched objects",
                              "owners respect the usage contract (a block is released once, by its owner, after detaching the copy)"])
